@@ -291,7 +291,7 @@ func execute(t *testing.T, cfg Config, c bubble.Chooser, strict bool) execOut {
 	if chanDeadlock != "" {
 		var shape []string
 		for _, part := range strings.Fields(chanDeadlock) {
-			if !strings.HasSuffix(part, ":finished") {
+			if !strings.HasSuffix(part, ":finished") && !strings.HasPrefix(part, "N:") && !strings.HasPrefix(part, "Nend:") { // (not the handles of the nested context's goroutine)
 				shape = append(shape, strings.SplitN(part, "@", 2)[0])
 			}
 		}
